@@ -188,6 +188,28 @@ def notifyOrWriteCmd (cfg : Cfg) (fn : FnRow) (data : α) (delSel partSel : Opti
       | .error e => .error e
       | .ok filters => .ok (withFilters cmd fn.key filters)
 
+/-! ## arguments of type `any` -/
+
+/-- How a selectors / elements argument (Go type `any`) arrives: the untyped nil, a nil pointer of some
+    type (what a wrapper forwarding a typed argument passes), or a pointer to a value. -/
+inductive ArgForm (α : Type)
+  | untypedNil
+  | typedNil (ty : Key)
+  | value (t : Typed α)
+
+/-- `util.IsNil` as `filtersForSelectorsElements` uses it: both nil forms mean "absent". -/
+def ArgForm.present : ArgForm α → Option (Typed α)
+  | .untypedNil => none
+  | .typedNil _ => none
+  | .value t => some t
+
+def readCmdAny (cfg : Cfg) (fn : FnRow) (empty : α) (sel el : ArgForm α) : Except Panic (Cmd α) :=
+  readCmd cfg fn empty sel.present el.present
+
+def notifyOrWriteCmdAny (cfg : Cfg) (fn : FnRow) (data : α) (delSel partSel : ArgForm α)
+    (partialWithoutSelector : Bool) (delEl : ArgForm α) : Except Panic (Cmd α) :=
+  notifyOrWriteCmd cfg fn data delSel.present partSel.present partialWithoutSelector delEl.present
+
 /-! ## recognisers -/
 
 structure CmdData (α : Type) where
